@@ -1,6 +1,7 @@
 package main
 
 import (
+	"bytes"
 	"encoding/binary"
 	"encoding/hex"
 	"fmt"
@@ -156,6 +157,54 @@ func genC04(r *Rng, e *Emitter, n int) {
 			e.tally("mutation=mixed-member-layout")
 		}
 		c04Run(e, c, lims, b)
+	}
+	// counts beyond 2^16 that are really there: tens of thousands of empty rings / lines / points
+	for _, R := range []int{65536, 65537, 70001} {
+		l := xyzmLayouts[r.Intn(4)]
+		ends := make([]int, R)
+		var g geom.T
+		switch r.Intn(2) {
+		case 0:
+			g = geom.NewPolygonFlat(l, nil, ends)
+		default:
+			g = geom.NewMultiLineStringFlat(l, nil, ends)
+		}
+		c := codecs[r.Intn(len(codecs))]
+		var bo binary.ByteOrder = wkb.XDR
+		if r.chance(1, 2) {
+			bo = wkb.NDR
+		}
+		b, err := c.marshal(g, bo)
+		if err != nil {
+			continue
+		}
+		// (too long for a line of the model's protocol: decoded here, and judged by structure — ends as
+		// many as members, all zero, no coordinates — and by re-encoding to the same bytes)
+		kind := fmt.Sprintf("%T", g)
+		e.tally("mutation=valid-many-empty-members")
+		e.emit("C04.many", fmt.Sprintf("(%s %d %d)", c.name, R, len(b)), guard(func() string {
+			var d geom.T
+			var derr error
+			switch c.name {
+			case "wkb":
+				d, derr = wkb.Unmarshal(b)
+			case "wkbnan":
+				d, derr = wkb.Unmarshal(b, nanOpt)
+			default:
+				d, derr = ewkb.Unmarshal(b)
+			}
+			if derr != nil {
+				return sxErr(derr)
+			}
+			wf := fmt.Sprintf("%T", d) == kind && len(d.FlatCoords()) == 0 && len(d.Ends()) == R
+			for _, x := range d.Ends() {
+				if x != 0 {
+					wf = false
+				}
+			}
+			b2, err := c.marshal(d, bo)
+			return fmt.Sprintf("(ok %v %v)", wf, err == nil && bytes.Equal(b, b2))
+		}))
 	}
 	// large limits, the top-level count forged up to the limit, one large member really present and the
 	// rest cut off: what is reserved must follow what the input holds, not the product of the counts
